@@ -120,11 +120,20 @@ def fresh(arities, V, fixed=None):
     return h
 
 
-def order_pairs(faces, V):
+def order_pairs(faces, V, sort_on=True):
     """the answer to a query does not depend on which other query was issued before it: every ordered pair of accessors on a
     fresh mesh (closed fan with scrambled face numbering, so that set order and rotational order differ)"""
     def h(sx):
+        import mouette.config as config
         i1, i2 = sx.choice("first_query", N_FIRST), sx.choice("second_query", N_FIRST)
+        old = config.sort_neighborhoods
+        config.sort_neighborhoods = sort_on
+        try:
+            _order_pairs_body(sx, faces, V, i1, i2)
+        finally:
+            config.sort_neighborhoods = old
+
+    def _order_pairs_body(sx, faces, V, i1, i2):
         mesh = _build(faces, V)
         qs = _first_queries(mesh, faces)
         n1, f1 = qs[i1]
@@ -209,6 +218,8 @@ def obligations(tier):
             obs.append(Ob("fixed-" + nm, relabelled_fixed(nm), covers=COVERS, split=3, note=nm + " under symbolic relabelling"))
     obs.append(Ob("order-pairs-fan4", order_pairs([(0, 1, 2), (0, 3, 4), (0, 2, 3), (0, 4, 1)], 5), covers=COVERS, split=2,
                   note="every ordered pair of accessors on a fresh closed 4-fan with scrambled face numbering"))
+    obs.append(Ob("order-pairs-openfan-unsorted", order_pairs([(0, 2, 3), (0, 1, 2), (0, 3, 4)], 5, sort_on=False), covers=COVERS, split=2,
+                  note="every ordered pair of accessors on a fresh open 3-fan around a border vertex, neighbourhood sorting off"))
     obs.append(Ob("fresh-3", fresh((3,), 3), covers=COVERS, split=3, note="each accessor as first query, single triangle"))
     if q:
         obs.append(Ob("fresh-33", fresh((3, 3), 4, fixed=[(0, 1, 2), (0, 2, 3)]), covers=COVERS,
